@@ -105,6 +105,40 @@ def _flat(row):
     return tuple(out)
 
 
+class Undecided(Exception):
+    pass
+
+
+UNDECIDED = [0]  # comparisons given up on (counted in the evidence distribution; each counts as "answers differ")
+
+
+class Ordered:
+    """a SELECT result whose query has a top-level ORDER BY: the order of its rows is part of the answer"""
+
+    def __init__(self, result):
+        self.result = result
+
+
+def seq_equiv(ra, rb):
+    """equal as SEQUENCES up to one bijection between blank-node labels (built left to right)"""
+    ra, rb = [_flat(r) for r in ra], [_flat(r) for r in rb]
+    if len(ra) != len(rb):
+        return False
+    fwd, bwd = {}, {}
+    for r1, r2 in zip(ra, rb):
+        if len(r1) != len(r2):
+            return False
+        for x, y in zip(r1, r2):
+            if _is_b(x) != _is_b(y):
+                return False
+            if _is_b(x):
+                if fwd.setdefault(x[1], y[1]) != y[1] or bwd.setdefault(y[1], x[1]) != x[1]:
+                    return False
+            elif x != y:
+                return False
+    return True
+
+
 def rows_equiv(ra, rb, budget=200000):
     """equal as MULTISETS of rows up to a bijection between blank-node labels (order of rows is not looked at).
     Backtracking search, rows grouped by their label-blind shape."""
@@ -150,7 +184,7 @@ def rows_equiv(ra, rb, budget=200000):
             return True
         steps[0] += 1
         if steps[0] > budget:
-            return True  # search too large: the label-blind shapes agree, give the benefit of the doubt
+            raise Undecided()  # search too large: NOT "equal" - the caller counts it and treats it as a difference
         k, r1 = todo[i]
         for j, r2 in enumerate(gb[k]):
             if used[k][j]:
@@ -192,6 +226,9 @@ def ans(x):
         if isinstance(x, (Dataset, ConjunctiveGraph)):
             return ("rows", None, [tuple(canon_term(c) for c in q) for q in x.quads()])
         return ("graph", to_isomorphic(x).internal_hash())  # canonical up to blank-node renaming, order-free
+    if isinstance(x, Ordered):
+        x = x.result
+        return ("seq", [str(v) for v in (x.vars or [])], [tuple(canon_term(c) for c in r) for r in x])
     if isinstance(x, rdflib.query.Result):
         if x.type == "ASK":
             return ("val", repr(x.askAnswer))
@@ -212,10 +249,12 @@ def ans(x):
 def equiv(a, b):
     if a[0] != b[0]:
         return False
-    if a[0] == "rows":
+    if a[0] == "rows":   # a SPARQL solution multiset / what an iterator over a set yields: order is not an answer
         return a[1] == b[1] and rows_equiv(a[2], b[2])
-    if a[0] == "text":
-        return a[1] == b[1] or rows_equiv(text_rows(a[1]), text_rows(b[1]))
+    if a[0] == "seq":    # ORDER BY: row by row
+        return a[1] == b[1] and seq_equiv(a[2], b[2])
+    if a[0] == "text":   # serialised text: line by line, blank-node labels renamed consistently
+        return a[1] == b[1] or seq_equiv(text_rows(a[1]), text_rows(b[1]))
     if a[0] == "tuple":
         return len(a[1]) == len(b[1]) and all(equiv(x, y) for x, y in zip(a[1], b[1]))
     return a == b
@@ -227,8 +266,12 @@ def same_answer(a, b):
     if a[0] != b[0]:
         return False
     if a[0] == "exc":
-        return a == b
-    return equiv(a[1], b[1])
+        return a == b  # the same exception class both times (raised reads are counted in the evidence)
+    try:
+        return equiv(a[1], b[1])
+    except Undecided:
+        UNDECIDED[0] += 1
+        return False
 
 
 # ------------------------------------------------------------------ the catalogue of reads
@@ -309,7 +352,9 @@ READS = [
     ("q_select_optional", query("SELECT ?s ?x WHERE { ?s <http://e/p> ?o OPTIONAL { ?o <http://e/q> ?x } }")),
     ("q_select_union_filter", query("SELECT ?s WHERE { { ?s <http://e/p> ?o } UNION { ?s <http://e/q> ?o } FILTER(isIRI(?s)) }")),
     ("q_select_minus", query("SELECT ?s WHERE { ?s ?p ?o MINUS { ?s <http://e/q> ?x } }")),
-    ("q_select_agg", query("SELECT ?p (COUNT(?o) AS ?n) (SAMPLE(?s) AS ?x) WHERE { ?s ?p ?o } GROUP BY ?p ORDER BY ?p")),
+    ("q_select_agg", lambda g, w: Ordered(g.query("SELECT ?p (COUNT(?o) AS ?n) WHERE { ?s ?p ?o } GROUP BY ?p ORDER BY ?p"))),
+    ("q_select_order_by", lambda g, w: Ordered(g.query("SELECT ?s ?p ?o WHERE { ?s ?p ?o } ORDER BY ?p DESC(?s) ?o"))),
+    ("q_select_sample", query("SELECT ?p (SAMPLE(?s) AS ?x) WHERE { ?s ?p ?o } GROUP BY ?p")),
     ("q_select_sub_order", query("SELECT ?s WHERE { { SELECT DISTINCT ?s WHERE { ?s ?p ?o } ORDER BY ?s LIMIT 3 } }")),
     ("q_select_bind_values", query("SELECT ?s ?l WHERE { VALUES ?s { <http://e/a> <http://e/b> } ?s ?p ?o BIND(STR(?o) AS ?l) }")),
     ("q_select_exists", query("SELECT ?s WHERE { ?s ?p ?o FILTER NOT EXISTS { ?o ?q ?z } }")),
@@ -409,6 +454,13 @@ READS = [
     ("cmp_similar_views", lambda g, w: w.pairwise(g, lambda a, b: similar(a, b))),
     ("cmp_to_isomorphic_views", lambda g, w: [to_isomorphic(v).internal_hash() for v in w.views(g)]),
     ("cmp_to_canonical_views", lambda g, w: [ans(to_canonical_graph(v)) for v in w.views(g)]),
+    ("cmp_graph_diff_aggregate", lambda g, w: graph_diff(ReadOnlyGraphAggregate([_as_graph(g, w)]), _other(g, w))),
+    ("cmp_graph_diff_aggregate_both", lambda g, w: graph_diff(ReadOnlyGraphAggregate([_as_graph(g, w)]), ReadOnlyGraphAggregate([_as_graph(g, w)]))),
+    ("cmp_graph_diff_aggregate_views", lambda g, w: w.pairwise(g, lambda a, b: ans(graph_diff(ReadOnlyGraphAggregate([a]), ReadOnlyGraphAggregate([b]))))),
+    ("cmp_graph_diff_canonical", lambda g, w: graph_diff(to_canonical_graph(_as_graph(g, w)), to_canonical_graph(_other(g, w)))),
+    ("cmp_isomorphic_aggregate", lambda g, w: (isomorphic(ReadOnlyGraphAggregate([_as_graph(g, w)]), _other(g, w)),
+                                               to_isomorphic(ReadOnlyGraphAggregate([_as_graph(g, w)])).internal_hash(),
+                                               similar(ReadOnlyGraphAggregate([_as_graph(g, w)]), _as_graph(g, w)))),
     ("cmp_isomorphic_graph_digest", lambda g, w: (to_isomorphic(_as_graph(g, w)).graph_digest(), to_isomorphic(_as_graph(g, w)).internal_hash(stats={}))),
     ("ser_file_turtle", lambda g, w: w.to_file(g, "turtle")), ("ser_file_xml", lambda g, w: w.to_file(g, "xml")),
     ("ser_file_nt", lambda g, w: w.to_file(g, "nt")), ("ser_file_jsonld", lambda g, w: w.to_file(g, "json-ld")),
@@ -441,7 +493,7 @@ READS = [
                                                 _try(lambda: c.index(B)), _try(lambda: c.index(Literal("nope"))), B in list(c)))(Collection(g, A))),
     ("collection_nil_and_missing", lambda g, w: (len(Collection(g, RDF.nil)), list(Collection(g, RDF.nil)), len(Collection(g, C_)), list(Collection(g, BNode("b2"))))),
     ("items_all_heads", lambda g, w: [_try(lambda s=s: [repr(x) for x in g.items(s)]) for s in (A, BNode("b1"), RDF.nil, C_)]),
-    ("seq_read", lambda g, w: (lambda q: None if q is None else (len(q), [repr(x) for x in q], repr(q[0]), _try(lambda: repr(q[7]))))(rdflib.graph.Seq(g, C_))),
+    ("seq_read", lambda g, w: (lambda q: None if q is None else (len(q), [repr(x) for x in q], _try(lambda: repr(q[0])), _try(lambda: repr(q[7]))))(rdflib.graph.Seq(g, C_))),
     ("seq_missing", lambda g, w: (len(rdflib.graph.Seq(g, A)), list(rdflib.graph.Seq(g, BNode("b2"))))),
     ("value_variants", lambda g, w: (repr(g.value(A, RDF.first)), repr(g.value(predicate=RDF.first, object=B, any=True)), repr(g.value(A, None, B, any=True)),
                                      _try(lambda: repr(g.value(A, P, any=False))), repr(g.value(C_, RDFS.label, default=Literal("d"))))),
@@ -493,6 +545,11 @@ READS = [
 READ_ID = {name: i for i, (name, _) in enumerate(READS)}
 FOREIGN_READS = {"ds_triples_foreign_ctx": "OTriples", "ds_in_foreign_quad": "OContains", "ds_quads_foreign": "OQuads"}
 DS_ONLY = {n for n, _ in READS if n.startswith("ds_")}
+# reads that only make sense on a dataset (on a plain Graph view they raise at once): the generator aims them at the
+# front end; the sweep still applies them to views too, and raised reads are counted in the evidence
+DS_PREFERRED = {n for n, _ in READS if (n.startswith("q_") and ("graph" in n or "from_named" in n or "from_and_named" in n))
+                or n in ("ser_nquads", "ser_trix", "ser_file_nquads", "ser_patch_add", "ser_patch_remove", "ser_patch_target",
+                         "ser_patch_target_persistent", "ser_patch_target_reverse", "ser_patch_target_self", "ser_patch_target_empty")}
 SKIP_RAND = True  # RAND()/NOW()/UUID()/BNODE() queries are outside the property's repeatability clause
 
 
@@ -756,7 +813,7 @@ class C13(Suite):
         names = [n for n, _ in READS]
         for _ in range(rng.choice([8, 10, 12, 16])):
             n = rng.choice(names)
-            if n in DS_ONLY or rng.random() < 0.55:
+            if n in DS_ONLY or n in DS_PREFERRED or rng.random() < 0.55:
                 tgt = "ds"
             else:
                 tgt = rng.choice([0, 1, 2, 3, 4, 5])
@@ -785,7 +842,8 @@ class C13(Suite):
             # the second call must not write either, and neither call may touch the OTHER dataset it was handed
             # (patch target=): both are folded into the flag
             calls = call_codes(w.store._log)  # before the snapshot below (which reads the inner store anyway)
-            obs[1].append([mid, bool(same_answer(a1, a2) and after == mid and w.others() == o0), [list(c) for c in calls]])
+            status = "ok" if a1[0] == "ok" and a2[0] == "ok" else "raised:" + str((a1 if a1[0] == "exc" else a2)[1])
+            obs[1].append([mid, bool(same_answer(a1, a2) and after == mid and w.others() == o0), [list(c) for c in calls], status])
         return obs
 
     def on_timeout(self, case):
@@ -833,6 +891,13 @@ class C13(Suite):
         for e in (obs[1] if obs and len(obs) > 1 else []):
             for code, nm in e[2]:
                 f["store_call_" + nm] = f.get("store_call_" + nm, 0) + 1
+            if len(e) > 3 and e[3] != "ok":
+                f["reads_raised"] = f.get("reads_raised", 0) + 1
+                f["reads_" + e[3]] = f.get("reads_" + e[3], 0) + 1
+            else:
+                f["reads_answered"] = f.get("reads_answered", 0) + 1
+        if UNDECIDED[0]:
+            f["answers_undecided_total_so_far"] = UNDECIDED[0]
         for name, tgt in case["reads"]:
             fam = name.split("_")[0]
             f["read_" + fam] = f.get("read_" + fam, 0) + 1
@@ -876,17 +941,24 @@ TRUSTED = [
     "Memory store and records its name; Graph/Dataset/serialisers/the SPARQL engine only ever hold this object, so every store "
     "method a read calls is in the observation (no hook in /repo)",
     "that the store methods recorded as reads (triples, triples_choices, contexts, __len__, namespaces, namespace, prefix, query) "
-    "behave as the operations of the read-program language of coq/Purity/Model.v: Memory's side is property C01's/C02's tie; "
-    "given that, C13_program_pure / C13_program_repeatable make the purity of an opaque read a consequence of the recorded calls",
+    "behave as the operations of the read-program language of coq/Purity/Model.v (Memory's side is property C01's/C02's tie) AND "
+    "that a read which calls only those methods is such a program: neither is proved; the C13_interface theorems are facts about "
+    "the interface and reach a concrete read only through this recording",
+    "the per-read flag (second answer equals the first, second call changed nothing, no other dataset changed) is computed by "
+    "the harness in Python (same_answer / seq_equiv / rows_equiv), not in Coq",
     "a write that bypasses the store API (poking Memory's private dictionaries) is not recorded; the before/after snapshots are for that",
 ]
 ASSUMPTIONS = [
     "store is rdflib.plugins.stores.memory.Memory behind the recording proxy; SPARQL_LOAD_GRAPHS is at its default (on): FROM / "
     "FROM NAMED dereference file:// documents written by the harness under build/c13_docs; the urn: names of the pool cannot be fetched",
     "queries using RAND/NOW/UUID/BNODE() are not issued (outside the repeatability clause)",
-    "two store calls issued by reads are accepted as benign, each justified in notes/C13.md: bind (prefix table: the property "
-    "speaks of triples, quads and the set of graphs) and add_graph(<the default graph>) (Dataset.graphs()/contexts() re-creating "
-    "the default graph, which the specification counts as always present); every other non-read call is a specification failure",
+    "one store call issued by reads is accepted beyond the read methods, justified in notes/C13.md: bind (the prefix table: the "
+    "property speaks of triples, quads and the set of graphs); every other non-read call - add_graph of the default graph "
+    "included - is a specification failure",
+    "answers are compared exactly where an order is defined (serialised text line by line, ORDER BY results row by row; blank-node "
+    "labels renamed by one consistent bijection) and as multisets where SPARQL or Python defines none (solution multisets, "
+    "iteration over a set); graphs (CONSTRUCT/DESCRIBE results, returned Graph objects) up to isomorphism via rdflib.compare - the "
+    "library under test - which is why its own functions are also in the catalogue",
 ]
 RULE = ("a dataset (Dataset 80% / ConjunctiveGraph 20%, default_union on/off) built from 1-9 valid triples over 1-4 graph "
         "names (IRI- and bnode-named, empty known graphs, emptied graphs, optionally an RDF list and an rdf:Seq), then 8-16 reads "
